@@ -56,6 +56,41 @@ REMEDY = {
     "C13-r4-2": "C13 workers run in four different time zones",
     "C15-r4-2": "C15 construction on rolled / descending direction coordinates",
     "C19-r4-2": "C19 light airs (wind below 1 m/s)",
+    "C04-r4-1": "GIL release: decided by C07",
+    "C06-r4-1": "label map returned as a view of the static buffer: needs threads, decided by C07 (and by C04, which keeps maps across calls)",
+    "C06-r4-2": "state of the native routine carried between grids of equal bin count: decided by C18 (and C04)",
+    "C07-r4-2": "C07 mixes the backing: dask forcing with numpy spectra and vice versa",
+    "C10-r4-1": "NOT CAUGHT by design: only manifests on exact ties between direction bins, which leave 'the peak direction' undefined (see text)",
+    "C12-r4-1": "C12 ERA5 bin-number labels 1-based / 0-based / absent",
+    "C12-r4-2": "C12 north written as 2 pi, float32 radian coordinates (exposed defect 32)",
+    "C14-r4-1": "C14 queries down to 1e-6 degree from a station",
+    "C16-r4-2": "C16 dask-backed inputs chunked along freq / dir",
+    "C17-r4-2": "C17 writers get slightly negative densities",
+    "C18-r4-1": "in-place cast of the caller's coordinate: decided by C17 (and C05)",
+    "C18-r4-2": "in-place scaling of the caller's buffer: decided by C17",
+    "C20-r4-1": "C20 requires a finite hmax on a one-record time axis",
+    "C20-r4-2": "C20 drives the fits, and energy levels up to 1e4",
+    "C01-r5-1": "new C01 stream on grids whose first bin is 0 Hz",
+    "C03-r5-1": "C03 oracle decides the exactly-zero wind-sea fraction instead of calling it a boundary case",
+    "C03-r5-2": "GIL release: decided by C07",
+    "C04-r5-2": "C04 energy levels down to ranges of 1e-8",
+    "C06-r5-2": "C06 rolled storage (seam first) in the accessor comparison",
+    "C07-r5-1": "new C07 fits stream on slowly varying sea states",
+    "C07-r5-2": "C07 stress partitions distinct grids of equal shape with hp01",
+    "C09-r5-1": "C09 single-direction boxes (exposed defect 33)",
+    "C09-r5-2": "C09 calm records among the others",
+    "C10-r5-1": "dpspr(mom=2) added to the op table",
+    "C10-r5-2": "records seven decades apart inside one array: decided by C06 (single vs batched) and C02",
+    "C11-r5-1": "C11 grids held in other dimension orders",
+    "C11-r5-2": "C11 positions compared exactly for formats that store doubles",
+    "C12-r5-2": "C12 native variables in permuted dimension order, square grids",
+    "C14-r5-1": "C14 decides zero tolerance with exact hits",
+    "C15-r5-1": "C15 very narrow beams on 360/720-bin grids",
+    "C16-r5-1": "C16 inputs in any dimension order",
+    "C17-r5-1": "C17 failing writes",
+    "C17-r5-2": "new C17 tracking stream with calm records",
+    "C18-r5-1": "C18 reconstruction in histories and as observed operation",
+    "C18-r5-2": "Dataset accessor adds arguments of its own: decided by C06 on reader-like datasets (wind/depth variables present)",
 }
 rows = []
 for m in sorted(glob.glob(os.path.join(ROOT, "seeded", "*", "meta.json"))):
